@@ -2,7 +2,10 @@
    (1) the attribute machine (push_from_attr / push_raw as driven by _normalize_attribute) against
    Spec/Text.v, at top level and inside entity values, and on the model's normalize_attribute;
    (2) a namespace declaration is never stored as an attribute, attributes are stored in source order,
-   nothing dropped or duplicated, expanded names pairwise distinct, namespace indices as resolved.
+   nothing dropped or duplicated, expanded names pairwise distinct, namespace indices as resolved;
+   (3) whole documents, fragment of Spec/CstText.v (attribute values made of literals incl. TAB / LF / CR / CR LF,
+   character and predefined references): every rendering parses to the element's attributes in source order with
+   values norm_attr_chunks of their pieces (parse_render_sem_text; view / sem list the attributes of every element).
    Statements are pinned here (copied verbatim from the proof files by tools/pin_props.py);
    each is re-proved by `exact` and followed by Print Assumptions. *)
 From Coq Require Import Ascii String.
@@ -11,8 +14,36 @@ Import ListNotations.
 From RX Require Import Generated.
 From RX.Model Require Import Base CharClass Stream Tokenizer Doc Builder Parse Api.
 From RX.Spec Require Import Text.
-From RX.Proofs Require Import TextMachine AttrListProofs.
+From RX.Spec Require Cst CstText.
+From RX.Proofs Require Import TextMachine AttrListProofs CstMain CstTextMain.
 Open Scope N_scope.
+
+(* ---- Proofs/CstTextMain.v ---- *)
+Module G0.
+Module T := CstText.
+Theorem C05_parse_render_sem_text :
+  forall (c : T.doc) (opt : options),
+  T.wf_doc c = true ->
+  N.of_nat (length (T.sem c)) < nodes_limit opt ->            (* room for all nodes + the Root *)
+  N.of_nat (length (T.render c)) <= u32_max ->                 (* the input is at most u32::MAX bytes long *)
+  exists d, parse (T.render c) opt = Ok d /\
+            view (T.render c) d = T.sem c /\
+            (forall nd ns local ar nss, In nd (d_nodes d) -> nd_kind nd = KElement ns local ar nss -> ns = None) /\
+            (forall a, In a (d_attrs d) -> ad_ns_idx a = None).
+Proof. exact parse_render_sem_text. Qed.
+Print Assumptions C05_parse_render_sem_text.
+
+Theorem C05_layout_insensitive_text :
+  forall c1 c2 opt,
+  T.wf_doc c1 = true -> T.wf_doc c2 = true -> T.sem c1 = T.sem c2 ->
+  N.of_nat (length (T.sem c1)) < nodes_limit opt ->
+  N.of_nat (length (T.render c1)) <= u32_max -> N.of_nat (length (T.render c2)) <= u32_max ->
+  exists d1 d2, parse (T.render c1) opt = Ok d1 /\ parse (T.render c2) opt = Ok d2 /\
+                view (T.render c1) d1 = view (T.render c2) d2.
+Proof. exact layout_insensitive_text. Qed.
+Print Assumptions C05_layout_insensitive_text.
+
+End G0.
 
 (* ---- Proofs/TextMachine.v ---- *)
 Theorem C05_attr_chunks_normalise :
